@@ -219,12 +219,8 @@ def check(ctx):
 
 
 def _is_stopped_test(t):
-    if isinstance(t, ast.BoolOp) and isinstance(t.op, ast.Or) and len(t.values) == 2:
-        consts = set()
-        for v in t.values:
-            if not (isinstance(v, ast.Compare) and len(v.ops) == 1 and isinstance(v.ops[0], ast.Eq)):
-                return False
-            names = {dotted(v.left), dotted(v.comparators[0])}
-            consts |= names - {"status", "self.status"}
-        return consts == {"STOPPED", "READIED"}
-    return False
+    from ..rules import member_test
+    m = member_test(t)
+    return bool(m) and m[0] in ("status", "self.status") and m[1] == {"STOPPED", "READIED"}
+
+
